@@ -2,7 +2,10 @@ package props
 
 import (
 	"context"
+	"errors"
 	"fmt"
+	"net"
+	"os"
 	"runtime"
 	"testing"
 	"testing/synctest"
@@ -260,6 +263,15 @@ func TestC10(t *testing.T) {
 				got, e = readOneRecord(c)
 				if e != nil || string(got) != string(next) {
 					viol = fmt.Sprintf("blocking Read after the context ended failed: %v", e)
+					return
+				}
+				// an idle timeout the caller arms later is reported as what it is: a timeout of
+				// the connection, not the fate of a context that no longer has any say
+				c.SetReadDeadline(time.Now().Add(3 * time.Second))
+				_, e = c.Read(make([]byte, 16))
+				var ne net.Error
+				if e == nil || !errors.Is(e, os.ErrDeadlineExceeded) || !errors.As(e, &ne) || !ne.Timeout() || errors.Is(e, context.Canceled) || errors.Is(e, context.DeadlineExceeded) && !errors.Is(e, os.ErrDeadlineExceeded) {
+					viol = fmt.Sprintf("a read deadline armed by the caller after the context ended made Read return %v (want a timeout error wrapping os.ErrDeadlineExceeded)", e)
 					return
 				}
 			})
